@@ -1135,7 +1135,17 @@ func (m *manager) HandleAccountSpend(traderKey *btcec.PublicKey,
 		switch err {
 		// If there's no pending batch, we can proceed as normal.
 		case ErrNoPendingBatch:
-			break
+			// The account was read before we acquired the lock
+			// though, so another spend handler (of a different
+			// account of the same batch) might have committed the
+			// pending batch, and with it the update of our account,
+			// in the meantime. Refresh the account to not compare
+			// the spend against a stale output.
+			account, err = m.cfg.Store.Account(traderKey)
+			if err != nil {
+				m.pendingBatchMtx.Unlock()
+				return err
+			}
 
 		// If there is, we'll commit it and refresh the account state.
 		case nil:
